@@ -28,13 +28,13 @@ var names = []string{"page0", "page1", "page2"}
 var flipN atomic.Int64
 
 func mainSrc(n string, v int) []byte {
-	return []byte(fmt.Sprintf("M%d<%s>{%% for i := 0; i < 3; i++ sep , %%}{%%= i %%}:{%%= user.Id %%}{%% endfor %%}|{%% include part missing %%}|{%% . missing part %%}|{%% for _, h := range user.Finance.History %%}{%%= h.Cost %%};{%% endfor %%}E%d", v, n, v))
+	return []byte(fmt.Sprintf("M%d<%s>{%% for i := 0; i < 3; i++ sep , %%}{%%= i %%}:{%%= user.Id %%}{%% endfor %%}|{%% include part missing %%}|{%% . missing part %%}|{%% for _, h := range user.Finance.History %%}{%%= h.Cost %%};{%% endfor %%}|{%% urlencode %%}a b&c=1{%% endurlencode %%}|{%% htmlescape %%}<b>T&J</b>{%% endhtmlescape %%}|{%% jsonquote %%}say \"hi\"{%% endjsonquote %%}|{%% urlencode %%}x y{%% endurlencode %%}E%d", v, n, v))
 }
 func partSrc(v int) []byte {
 	return []byte(fmt.Sprintf("P%d({%%j= user.Name %%}{%% if user.Status == 7 %%}seven{%% else %%}other{%% endif %%})Q%d", v, v))
 }
 
-var reOut = regexp.MustCompile(`^M(\d+)<(page\d)>0:(\w+),1:(\w+),2:(\w+)\|P(\d+)\((\w+)(seven|other)\)Q(\d+)\|P\d+\(\w+(?:seven|other)\)Q\d+\|1;2\.5;E(\d+)$`)
+var reOut = regexp.MustCompile(`^M(\d+)<(page\d)>0:(\w+),1:(\w+),2:(\w+)\|P(\d+)\((\w+)(seven|other)\)Q(\d+)\|P\d+\(\w+(?:seven|other)\)Q\d+\|1;2\.5;\|a\+b%26c%3D1\|&lt;b&gt;T&amp;J&lt;/b&gt;\|say \\"hi\\"\|x\+yE(\d+)$`)
 
 type result struct {
 	Renders     int64    `json:"renders"`
